@@ -117,8 +117,9 @@ CLAIMS = {
         "ranges tied by decide to facts regenerated from antlr/grulev3.g4.",
         note="What runs in /repo is the generated ANTLR lexer/parser (serialized ATN), not the grammar file: their agreement with the model is differential "
         "validation. Proved at token level: C17_valid_documents_parse / C17_parseDoc_roundtrip (every sequence of well-formed rules is read back from its tokens as "
-        "exactly these rules, no error, with the parser's own fuel; round trip R10), C17_illegal_start_rejected, C17_leading_whitespace. Not proved: the lexer step "
-        "in general, and the converse (what the recogniser accepts derives from the grammar). Fixes 3cd0826 (a "
+        "exactly these rules, no error, with the parser's own fuel; round trip R10), C17_illegal_start_rejected, C17_leading_whitespace, and the converse C17_accepted_rules_wellformed / C17_parser_range (whatever is accepted is a well-formed "
+        "document: condition, at least one action, grouping by prec) — the parser's range is exactly the well-formed documents. Not proved: the lexer step "
+        "in general, i.e. the character-level (what the recogniser accepts derives from the grammar). Fixes 3cd0826 (a "
         "rejected resource adds no rule) and 2e94e10 (salience out of range is an error, not a panic) in /repo.",
         tech="Lean 4 executable front-end model + theorems on the builder's effect + regenerated lexer facts (decide ties) + mutation-based differential correspondence", ref="5.C17"),
  "C18": dict(text="Lean model of pkg/JsonResource.go function by function (Json/Translate: depth-dependent bracketing, noWrap, single-operand not, number "
